@@ -26,6 +26,7 @@ DbVerdict(r) ==
                /\ Len(got) = Cardinality(want)                       \* each exactly once
                /\ r.out.errors = DbErrors(Root(r), Cfg(r))
                /\ r.out.reads_ok = "T"
+               /\ ("again" \in DOMAIN r.out => r.out.again = "F")     \* exhausted stays exhausted (each package once)
             THEN "ok" ELSE "bad"
 
 \* C20 fixes is_valid ("exactly when comment, contents and description are all non-empty") and that
